@@ -397,6 +397,35 @@ def all_names(g):
     return names, vars_
 
 
+import re as _re
+
+_RE_B = _re.compile(r"^(.*)_block_(\d+)$", _re.S)
+_RE_R = _re.compile(r"^(.*)_region_(\d+)$", _re.S)
+_RE_V = _re.compile(r"^__scfg_(.*)_var_(\d+)__$", _re.S)
+
+
+def probe_fresh(g):
+    """'A generated name never equals the name of a block already present in the graph': for every kind of name that
+    occurs in the hierarchy (derived from the names themselves) one more name of that kind is requested from a COPY of
+    each level's generator; it must not be present anywhere in the hierarchy.  -> [(request, kind, name)]"""
+    names, vars_ = all_names(g)
+    kinds_b = {m.group(1) for n in names for m in [_RE_B.match(n)] if m}
+    kinds_r = {m.group(1) for n in names for m in [_RE_R.match(n)] if m}
+    kinds_v = {m.group(1) for n in vars_ for m in [_RE_V.match(n)] if m}
+    gens = {id(g.name_gen): g.name_gen}
+    for r in regions(g).values():
+        gens.setdefault(id(r.subregion.name_gen), r.subregion.name_gen)
+    bad = []
+    for ng in gens.values():
+        for req, kinds, pool in (("new_block_name", kinds_b, names), ("new_region_name", kinds_r, names), ("new_var_name", kinds_v, vars_)):
+            for k in sorted(kinds):
+                c = type(ng)(kinds=dict(ng.kinds))
+                nm = getattr(c, req)(k)
+                if nm in pool:
+                    bad.append((req, k, nm))
+    return bad
+
+
 def run_history(desc):
     from numba_scfg.core.datastructures.scfg import SCFG
 
@@ -415,7 +444,16 @@ def run_history(desc):
         for n, b in list(blocks.items()):
             if len(b._jump_targets) == 1:
                 blocks[n] = SyntheticAssignment(name=n, _jump_targets=b._jump_targets, variable_assignment={v: 0 for v in taken})
-    g = SCFG(blocks) if not desc.get("src") else __import__("numba_scfg.core.datastructures.ast_transforms", fromlist=["AST2SCFG"]).AST2SCFG(desc["src"])
+    if desc.get("src") and desc.get("front") == "bytecode":
+        from numba_scfg.core.datastructures.byte_flow import ByteFlow
+
+        ns = {}
+        exec(compile(desc["src"], "<c18>", "exec"), ns)
+        g = ByteFlow.from_bytecode(ns["f"]).scfg
+    else:
+        g = SCFG(blocks) if not desc.get("src") else __import__("numba_scfg.core.datastructures.ast_transforms", fromlist=["AST2SCFG"]).AST2SCFG(desc["src"])
+    for req, k, nm in probe_fresh(g):
+        fail(f"history:input-graph:next-name-already-present:{req}", (k, nm))
     issued_all = []
     issued_any = False
     stages = list(STAGES)
@@ -448,6 +486,10 @@ def run_history(desc):
             if (m, name) in issued_all or name in [x for _, x in issued_all]:
                 fail(f"history:{tag}:name-issued-twice:{m}", name)
             issued_all.append((m, name))
+        if si == len(stages) - 1 or desc["reload_before"] == si + 1:
+            # before the graph is written out, and at the end of the history
+            for req, k, nm in probe_fresh(g):
+                fail(f"history:{tag}:next-name-already-present:{req}", (k, nm))
         after_names, _ = all_names(g)
         lost = before_names - after_names
         if lost:
@@ -488,14 +530,19 @@ def harness_c(E, ctx, aux):
         ctx.fail(f["kind"], f["signature"], desc, f["detail"])
 
 
-def harness_src_for(factory):
+def harness_src_for(factory, front="source"):
     from vf import s2
 
     def h(E, ctx, aux):
         ch = s2.Chooser(E, getattr(ctx, "cube", ()))
         src = factory(ch).program()
+        if front == "bytecode":
+            ns = {}
+            exec(compile(src, "<c18>", "exec"), ns)
+            if ns["f"].__code__.co_exceptiontable:
+                return
         for rl in (-1, 1, 2):
-            desc = {"kind": "history", "src": src, "reload_before": rl}
+            desc = {"kind": "history", "src": src, "reload_before": rl, "front": front}
             ctx.current = desc
             ctx.evaluations += 1
             try:
@@ -515,8 +562,8 @@ def harness_src_for(factory):
 def jobs(tier):
     from vf import s2
 
-    def srcjob(name, factory, depth, bounds, budget=900):
-        return Job(name=name, space=lambda: (None, [], None), harness=harness_src_for(factory), bounds=bounds, budget_s=budget,
+    def srcjob(name, factory, depth, bounds, budget=900, front="source"):
+        return Job(name=name, space=lambda: (None, [], None), harness=harness_src_for(factory, front), bounds=bounds, budget_s=budget,
                    cubes_fn=lambda: s2.enum_prefixes(lambda ch: factory(ch).program(), depth), path_timeout_s=30)
 
     js = [
@@ -530,6 +577,8 @@ def jobs(tier):
                {"space": "source-derived graphs (AST2SCFG over S2-armloop nested in an enclosing if)", "reload_before_stage": [-1, 1, 2]}, budget=900),
         srcjob("histories-source-S2-multi-exit-loop-then-branching-code", lambda ch: s2.SeqLoopGen(ch), 3,
                {"space": "source-derived graphs (AST2SCFG over S2-seqloop)", "reload_before_stage": [-1, 1, 2]}, budget=900),
+        srcjob("histories-bytecode-S2-ctl-c2-d2-t1", lambda ch: s2.CtlGen(ch, 2, 2, 1), 3,
+               {"space": "bytecode-derived graphs (ByteFlow over compiled S2-ctl)", "reload_before_stage": [-1, 1, 2]}, budget=900, front="bytecode"),
         Job("astsmt-obligations", space_a, harness_a, bounds={"kind_length<=": MAXLEN, "index<=": MAXIDX, "methods": METHODS}, budget_s=900, path_timeout_s=120),
         Job("request-sequences-L3", lambda: space_b(3), harness_b, bounds={"length": 3, "kinds": KINDS_B, "types": TYPES_B}, budget_s=600),
         Job("histories-N3", lambda: space_c(3), harness_c, bounds={"blocks": 3, "schemes": len(SCHEMES), "reload_before_stage": [-1, 0, 1, 2]}, budget_s=900),
